@@ -64,7 +64,7 @@ theorem parse_render (r : Req) (hwf : r.WF) {host : Bytes} {port : Option Bytes}
   rw [ht] at htgt
   have tf := targetFacts htgt
   obtain ⟨url, hurl, huh, hur⟩ := tf.url
-  obtain ⟨_, _, hmsp, _, hmlf⟩ := token_facts hmtok
+  obtain ⟨hmne, _, hmsp, _, hmlf⟩ := token_facts hmtok
   obtain ⟨_, hvlf⟩ := version_facts hver
   have ff := framingFacts r hnodup hfr
   -- the request line
@@ -83,7 +83,7 @@ theorem parse_render (r : Req) (hwf : r.WF) {host : Bytes} {port : Option Bytes}
     simp only [render, requestLine, ht]
   obtain ⟨q, hq⟩ := Px.Codec.foldHdrs_ok (dictOf r.fields) ff.clOK
     (reqLineParser pcfg (render r).length r.method r.version url)
-  have hparse := parse_request_fields pcfg r.fields (renderBody r) hmsp tf.noSP hl hurl hfs (render r) hpkt hq
+  have hparse := parse_request_fields pcfg r.fields (renderBody r) hmne hmsp tf.noSP hl hurl hfs (render r) hpkt hq
   obtain ⟨p1ty, p1m, p1v, p1h, p1b, p1c, p1ch, p1ce, p1u, p1p, p1host, p1buf, p1t⟩ :=
     reqLine_facts (render r).length r.method r.version url hmc
   obtain ⟨hsame, hhdrs, hchk⟩ := Px.Codec.foldHdrs_spec _ hq
